@@ -103,6 +103,7 @@ func scanAll(in []byte) scanned {
 	return s
 }
 
+var keylineRe = regexp.MustCompile(`^( +)([A-Za-z0-9_]+)( +)(\S.*\n?)$`)
 var originLineRe = regexp.MustCompile(`^ *[0-9]+(?: [!-~]{1,10}){1,6}$`)
 var locusRe = regexp.MustCompile(`^LOCUS[ \t]+\S+[ \t]+(-?[0-9]+) (?:bp|aa)`)
 
@@ -438,12 +439,34 @@ func init() { registerReplay(c07Prop) }
 // ---- mutators -----------------------------------------------------------------------------------
 
 var c07Hostile = []string{"DBLINK      X:", "DBLINK      X", "REFERENCE   1234", "REFERENCE   ", "LOCUS", "ORIGIN", "ORIGIN      ", "//", "FEATURES", "CONTIG      join(",
-	"CONTIG      join(A:1..", "ABCDEFGHIJKLMN   x", "  ORGANISM", "            ", "     gene            ", "                     /note=\"", "                     /", "        1 ", ">", "\r", "\x00"}
+	"CONTIG      join(A:1..", "ABCDEFGHIJKLMN   x", "  ORGANISM", "            ", "     gene            ", "     misc_recombination_x 1..20", "     gene 1..20", "                     /note=\"", "                     /", "        1 ", ">", "\r", "\x00"}
 
 func c07MutateText(t *rapid.T, text string) (string, string) {
 	lines := strings.SplitAfter(text, "\n")
 	pickLine := func(name string) int { return rapid.IntRange(0, len(lines)-1).Draw(t, name) }
-	switch rapid.IntRange(0, 13).Draw(t, "mutkind") {
+	switch rapid.IntRange(0, 14).Draw(t, "mutkind") {
+	case 14:
+		// feature key lines: widen a key beyond the key column, or shrink the blanks between key and location
+		var idx []int
+		for i, ln := range lines {
+			if keylineRe.MatchString(ln) {
+				idx = append(idx, i)
+			}
+		}
+		if len(idx) == 0 {
+			return text, "valid"
+		}
+		i := idx[rapid.IntRange(0, len(idx)-1).Draw(t, "kline")]
+		m := keylineRe.FindStringSubmatch(lines[i])
+		switch rapid.IntRange(0, 2).Draw(t, "kchange") {
+		case 0:
+			lines[i] = m[1] + m[2] + strings.Repeat("_x", rapid.IntRange(1, 8).Draw(t, "kgrow")) + m[3] + m[4]
+		case 1:
+			lines[i] = m[1] + m[2] + " " + m[4]
+		default:
+			lines[i] = m[1] + m[2] + m[3] + "  " + m[4]
+		}
+		return strings.Join(lines, ""), "feature-key"
 	case 0:
 		k := rapid.IntRange(0, len(text)).Draw(t, "trunc")
 		return text[:k], "truncate"
